@@ -195,7 +195,10 @@ func (c *Conn) genFrame(opcode Opcode, payload internal.Payload, cfg frameConfig
 func (c *Conn) compressData(opcode Opcode, payload internal.Payload, buf *bytes.Buffer, cfg frameConfig) (*bytes.Buffer, error) {
 	// 广播模式必须保证每一帧都是相同的内容, 所以不能使用字典优化压缩率
 	// Broadcast mode must ensure that every frame is the same, so you can't use a dictionary to optimize the compression rate.
-	var dict = internal.SelectValue(cfg.broadcast, nil, c.cpsWindow.dict)
+	var dict []byte
+	if !cfg.broadcast {
+		dict = c.cpsWindow.dict
+	}
 	if err := c.deflater.Compress(payload, buf, dict); err != nil {
 		return nil, err
 	}
